@@ -1,7 +1,7 @@
 (* C04 - property theorems only: statement, [exact lemma], Print Assumptions; Examples show the
    hypotheses are satisfiable (non-vacuity). *)
 From ASV Require Import Loc.
-From ASV.C04 Require Import Proofs.
+From ASV.C04 Require Import Model Proofs.
 
 (* two locations overlap iff they share a base *)
 Theorem C04_overlap : forall a b, Forall wf_part a -> Forall wf_part b ->
@@ -92,6 +92,193 @@ Theorem C04_extend_line_simple : forall p d N,
 Proof. exact extend_line_simple. Qed.
 Print Assumptions C04_extend_line_simple.
 
+(* ---- connect_locations on a ring ---- *)
+(* one single-part input: returned unchanged *)
+Theorem C04_connect_ring_single : forall N p, 0 < N -> ps p < pe p ->
+  connect_locations [[p]] (Some N) = Ok [p].
+Proof. exact connect_ring_single. Qed.
+Print Assumptions C04_connect_ring_single.
+
+(* two single-part inputs, any strands, any record length: the result in closed form - the
+   origin-spanning arc [later start, N) + [0, earlier end) when the gap between them exceeds
+   N/2, else the linear hull - and it does not depend on the argument order *)
+Theorem C04_connect_ring_pair_partial : forall N a b, 0 < N -> wfp N a -> wfp N b -> ordered a b ->
+  connect_locations [[a]; [b]] (Some N) = Ok (pair_result N a b) /\
+  connect_locations [[b]; [a]] (Some N) = Ok (pair_result N a b).
+Proof. exact connect_ring_pair. Qed.
+Print Assumptions C04_connect_ring_pair_partial.
+
+(* that result is a well-formed span, covers every base of both inputs, is never longer than the
+   linear hull, and connecting it again returns it unchanged (idempotence) *)
+Theorem C04_connect_ring_pair_props_partial : forall N a b, 0 < N -> wfp N a -> wfp N b -> ordered a b ->
+  is_span N (pair_result N a b) /\
+  (forall x, base_of [a] x \/ base_of [b] x -> base_of (pair_result N a b) x) /\
+  llen (pair_result N a b) <= Z.max (pe a) (pe b) - ps a /\
+  connect_locations [pair_result N a b] (Some N) = Ok (pair_result N a b).
+Proof. exact pair_result_props. Qed.
+Print Assumptions C04_connect_ring_pair_props_partial.
+
+(* and it is the shortest covering arc whenever an arc shorter than half the record covers both *)
+Theorem C04_connect_ring_pair_shortest_partial : forall N a b, 0 < N -> wfp N a -> wfp N b -> ordered a b ->
+  forall s len, 0 <= s < N -> 2 * len < N ->
+    (forall x, base_of [a] x \/ base_of [b] x -> arc N s len x) ->
+    llen (pair_result N a b) <= len.
+Proof. exact pair_result_shortest. Qed.
+Print Assumptions C04_connect_ring_pair_shortest_partial.
+
+(* an origin-spanning forward span is returned unchanged *)
+Theorem C04_connect_ring_span_idem : forall N s e, 0 < e -> e <= s -> s < N ->
+  connect_locations [[mkPart s N 1; mkPart 0 e 1]] (Some N) = Ok [mkPart s N 1; mkPart 0 e 1].
+Proof. exact connect_ring_wrapped_idem. Qed.
+Print Assumptions C04_connect_ring_span_idem.
+
+(* ---- extend on a ring, single part ---- *)
+(* extending a single part on a circular record covers exactly the bases within the distance,
+   wrapped round the origin on either side: for every record length, strand and distance that
+   leaves at least one base uncovered; the parts are well-formed, of the input's strand, and the
+   length grows by exactly 2*distance (so the at most two parts are disjoint) *)
+Theorem C04_extend_ring_simple : forall p d N,
+  wfp N p -> 0 <= d -> pe p - ps p + 2 * d < N ->
+  exists r, extend_location [p] d N true = Ok r /\
+    Forall (fun q => pst q = pst p /\ 0 <= ps q /\ ps q < pe q /\ pe q <= N) r /\
+    llen r = pe p - ps p + 2 * d /\
+    (forall x, 0 <= x < N -> (base_of r x <-> within_ring_of N p d x)).
+Proof. exact extend_ring_single_bases. Qed.
+Print Assumptions C04_extend_ring_simple.
+
+(* closed forms: start passes the origin / end passes the record end (parts in transcription order) *)
+Theorem C04_extend_ring_wrap_start : forall p d N,
+  wfp N p -> 0 <= d -> ps p - d < 0 -> pe p + d < ps p - d + N ->
+  extend_location [p] d N true =
+    Ok (order_by_strand (pst p) [mkPart (ps p - d + N) N (pst p); mkPart 0 (pe p + d) (pst p)]).
+Proof. exact extend_ring_single_wrap_start. Qed.
+Print Assumptions C04_extend_ring_wrap_start.
+
+Theorem C04_extend_ring_wrap_end : forall p d N,
+  wfp N p -> 0 <= d -> 0 <= ps p - d -> N < pe p + d -> pe p + d < ps p - d + N ->
+  extend_location [p] d N true =
+    Ok (order_by_strand (pst p) [mkPart (ps p - d) N (pst p); mkPart 0 (pe p + d - N) (pst p)]).
+Proof. exact extend_ring_single_wrap_end. Qed.
+Print Assumptions C04_extend_ring_wrap_end.
+
+(* both extensions pass the edges and meet: the whole record, one part *)
+Theorem C04_extend_ring_full : forall p d N,
+  wfp N p -> 0 <= d -> ps p - d < 0 -> 0 <= ps p - d + N -> ps p - d + N <= pe p + d ->
+  extend_location [p] d N true = Ok [mkPart 0 N (pst p)].
+Proof. exact extend_ring_single_full. Qed.
+Print Assumptions C04_extend_ring_full.
+
+(* ---- offset of a multi-part location on a linear record: every part moved, same bases
+   translated, same length ---- *)
+Theorem C04_offset_line_multi : forall l off, off <> 0 ->
+  Forall (fun p => ps p < pe p /\ 0 <= ps p + off) l ->
+  offset_location l off None = Ok (map (shift_part off) l).
+Proof. exact offset_line_multi. Qed.
+Print Assumptions C04_offset_line_multi.
+
+Theorem C04_offset_line_bases : forall l off x,
+  base_of (map (shift_part off) l) (x + off) <-> base_of l x.
+Proof. exact shift_bases. Qed.
+Print Assumptions C04_offset_line_bases.
+
+Theorem C04_offset_line_length : forall l off, llen (map (shift_part off) l) = llen l.
+Proof. exact shift_llen. Qed.
+Print Assumptions C04_offset_line_length.
+
+(* ---- ordering ---- *)
+(* Feature.__lt__ (left feature not a "source") is a strict weak order on every triple of
+   locations whose sort key exists (always, unless an origin-spanning location cannot be split):
+   irreflexive, asymmetric, transitive, incomparability transitive *)
+Theorem C04_order_feature : forall a b c ka kb kc,
+  cmp_key 1 a = Ok ka -> cmp_key 1 b = Ok kb -> cmp_key 1 c = Ok kc ->
+  ~ flt a a /\ (flt a b -> ~ flt b a) /\ (flt a b -> flt b c -> flt a c) /\
+  (~ flt a b -> ~ flt b a -> ~ flt b c -> ~ flt c b -> ~ flt a c /\ ~ flt c a).
+Proof. exact feature_order. Qed.
+Print Assumptions C04_order_feature.
+
+Theorem C04_order_key_plain : forall s l, bridges l = false -> cmp_key s l = Ok (lstart l, s * llen l).
+Proof. exact cmp_key_plain. Qed.
+Print Assumptions C04_order_key_plain.
+
+(* with the tie rule for "source" features the relation is not irreflexive *)
+Theorem C04_order_feature_source_refuted : exists a, feature_lt true a a = Ok true.
+Proof. exact feature_source_refuted. Qed.
+Print Assumptions C04_order_feature_source_refuted.
+
+(* CDSCollection.__lt__ is NOT a strict weak order on well-formed collection locations: the whole
+   record and a span over the origin are each less than the other *)
+Theorem C04_order_collection_refuted : exists N a b,
+  is_spanb N a = true /\ is_spanb N b = true /\
+  collection_lt a b = Ok true /\ collection_lt b a = Ok true.
+Proof. exact collection_order_refuted. Qed.
+Print Assumptions C04_order_collection_refuted.
+
+(* ---- soundness of the decidable specifications evaluated on the implementation's output ---- *)
+Theorem C04_spec_overlap_sound : forall a b out, ok_overlap a b out = true ->
+  (out = true <-> exists x, base_of a x /\ base_of b x).
+Proof. exact ok_overlap_sound. Qed.
+Print Assumptions C04_spec_overlap_sound.
+
+Theorem C04_spec_contains_sound : forall o i out, ok_contains o i out = true ->
+  (out = true <-> Forall (fun ip => exists op, In op o /\ ps op <= ps ip /\ pe ip <= pe op) i).
+Proof. exact ok_contains_sound. Qed.
+Print Assumptions C04_spec_contains_sound.
+
+Theorem C04_spec_distance_sound : forall a b w out, a <> [] -> b <> [] -> ok_dist a b w out = true ->
+  ((exists x, base_of a x /\ base_of b x) -> out = 0) /\
+  (~ (exists x, base_of a x /\ base_of b x) ->
+     (forall p q, In p a -> In q b -> out <= between w p q) /\
+     (exists p q, In p a /\ In q b /\ out = between w p q)).
+Proof. exact ok_dist_sound. Qed.
+Print Assumptions C04_spec_distance_sound.
+
+Theorem C04_spec_connect_ring_sound : forall N locs out,
+  0 < N -> locs <> [] -> Forall (fun l => wf_locb N l = true) locs ->
+  check_connect_ring N locs out = 0 ->
+  exists r, out = Ok r /\ is_span N r /\
+    (forall l x, In l locs -> base_of l x -> base_of r x) /\
+    (existsb bridges locs = false -> llen r <= hull_len locs) /\
+    (forallb (is_span_input N) locs = true -> N <= shortest_bound ->
+       forall s len, 0 <= s < N -> 2 * len < N ->
+         (forall l x, In l locs -> 0 <= x < N -> base_of l x -> arc N s len x) -> llen r <= len).
+Proof. exact check_connect_ring_sound. Qed.
+Print Assumptions C04_spec_connect_ring_sound.
+
+Theorem C04_spec_connect_line_sound : forall locs out, check_connect_line locs out = 0 ->
+  exists h, out = Ok [h] /\ ps h < pe h /\
+    ps h = lmin (map ps (all_parts locs)) /\ pe h = lmax (map pe (all_parts locs)).
+Proof. exact check_connect_line_sound. Qed.
+Print Assumptions C04_spec_connect_line_sound.
+
+Theorem C04_spec_line_hull_covers : forall locs h,
+  ps h = lmin (map ps (all_parts locs)) -> pe h = lmax (map pe (all_parts locs)) ->
+  forall l x, In l locs -> base_of l x -> ps h <= x < pe h.
+Proof. exact line_hull_covers. Qed.
+Print Assumptions C04_spec_line_hull_covers.
+
+Theorem C04_spec_offset_ring_sound : forall N a off out, check_offset_ring N a off out = 0 ->
+  exists r, out = Ok r /\
+    (r <> [] /\ Forall (fun p => 0 <= ps p /\ ps p < pe p /\ pe p <= N) r) /\
+    pairwise_disjoint r /\ llen r = llen a /\
+    (forall p0, hd_error a = Some p0 -> Forall (fun q => pst q = pst p0) r) /\
+    (forall x, 0 <= x < N -> (base_of r ((x + off) mod N) <-> base_of a x)).
+Proof. exact check_offset_ring_sound. Qed.
+Print Assumptions C04_spec_offset_ring_sound.
+
+Theorem C04_spec_offset_line_sound : forall a off out, check_offset_line a off out = 0 ->
+  out = Ok (map (fun p => mkPart (ps p + off) (pe p + off) (pst p)) a).
+Proof. exact check_offset_line_sound. Qed.
+Print Assumptions C04_spec_offset_line_sound.
+
+Theorem C04_spec_extend_sound : forall a d N circ out, check_extend a d N circ out = 0 ->
+  exists r, out = Ok r /\
+    (r <> [] /\ Forall (fun p => 0 <= ps p /\ ps p < pe p /\ pe p <= N) r) /\
+    pairwise_disjoint r /\
+    (forall x, 0 <= x < N ->
+       (base_of r x <-> base_of a x \/ (if circ then near_ring N a d x else near_line a d x))).
+Proof. exact check_extend_sound. Qed.
+Print Assumptions C04_spec_extend_sound.
+
 (* ---- non-vacuity ---- *)
 Example C04_ex_ring_distance :
   let a := [mkPart 1 2 1] in let b := [mkPart 2 3 1; mkPart 0 1 1] in
@@ -106,4 +293,33 @@ Proof. split; reflexivity. Qed.
 
 Example C04_ex_connect :
   connect_locations [[mkPart 5 10 1]; [mkPart 2 7 1]; [mkPart 20 30 1]] None = Ok [mkPart 2 30 1].
+Proof. reflexivity. Qed.
+
+Example C04_ex_order_keys :
+  cmp_key 1 [mkPart 7 10 1; mkPart 0 2 1] = Ok (-3, 5) /\ cmp_key 1 [mkPart 3 8 (-1)] = Ok (3, 5) /\
+  flt [mkPart 7 10 1; mkPart 0 2 1] [mkPart 3 8 (-1)].
+Proof. repeat split; reflexivity. Qed.
+
+Example C04_ex_spec_connect :
+  check_connect_ring 20 [[mkPart 17 19 1]; [mkPart 1 3 (-1)]] (Ok [mkPart 17 20 1; mkPart 0 3 1]) = 0 /\
+  check_connect_ring 20 [[mkPart 17 19 1]; [mkPart 1 3 (-1)]] (Ok [mkPart 1 19 1]) = 6 /\
+  check_extend [mkPart 0 1 2; mkPart 3 4 2] 2 4 true (Ok [mkPart 2 4 2; mkPart 0 1 2]) = 6.
+Proof. repeat split; reflexivity. Qed.
+
+Example C04_ex_connect_ring_pair :
+  wfp 20 (mkPart 1 3 (-1)) /\ wfp 20 (mkPart 17 19 1) /\ ordered (mkPart 1 3 (-1)) (mkPart 17 19 1) /\
+  pair_result 20 (mkPart 1 3 (-1)) (mkPart 17 19 1) = [mkPart 17 20 1; mkPart 0 3 1] /\
+  pair_result 20 (mkPart 1 3 (-1)) (mkPart 9 12 1) = [mkPart 1 12 2] /\
+  arc 20 17 6 2 /\ ~ arc 20 17 6 3.
+Proof. unfold wfp, ordered, arc. cbn. repeat split; try lia; try reflexivity. Qed.
+
+Example C04_ex_extend_ring :
+  wfp 20 (mkPart 1 4 (-1)) /\
+  extend_location [mkPart 1 4 (-1)] 3 20 true = Ok [mkPart 0 7 (-1); mkPart 18 20 (-1)] /\
+  extend_location [mkPart 15 19 1] 3 20 true = Ok [mkPart 12 20 1; mkPart 0 2 1] /\
+  extend_location [mkPart 5 19 1] 8 20 true = Ok [mkPart 0 20 1].
+Proof. unfold wfp. cbn. repeat split; try lia; reflexivity. Qed.
+
+Example C04_ex_offset_line_multi :
+  offset_location [mkPart 5 10 1; mkPart 12 14 1] (-3) None = Ok [mkPart 2 7 1; mkPart 9 11 1].
 Proof. reflexivity. Qed.
